@@ -531,6 +531,9 @@ def decode(case: dict, raw: dict) -> dict:
             elif head == "task_invocation" and tail in raw["call_ids"]:
                 kc = [3, raw["call_ids"][tail], 0]
                 vc = [4, inv_index[v], 0] if v in inv_index else ["?inv", repr(v)]
+            elif isinstance(v, str) and v in inv_index and v in raw["children"]:
+                # some other key format holding a launched invocation: a sub-task record of that invocation's call
+                kc, vc = [3, raw["children"][v]["n"], 0], [4, inv_index[v], 0]
             else:
                 kc, vc = ["?", k, 0], ["?", repr(v)]
             store.append([w, *kc, *vc])
@@ -642,8 +645,6 @@ def oracle(case: dict, obs: dict) -> list[tuple[str, str]]:
                 why = f"workflow {w} never requested call {kc[1]}"
             elif val[0] == 4 and obs["inv_wf"].get(val[1], w) != w:
                 why = f"invocation belongs to workflow {obs['inv_wf'].get(val[1])}"
-        elif kc[0] == "?":
-            why = "unrecognised record"
         if why:
             bad.append(("mixed:foreign-record", f"workflow data of workflow {w}: record {kc} = {val}: {why}"))
             break
@@ -667,6 +668,8 @@ def build_cases(ctx: Ctx) -> list[dict]:
 
 
 def evaluate(ctx: Ctx, cases: list[dict], scratch: str) -> None:
+    # histories that never re-use a Task object first: a violation found there cannot be the cached executor
+    cases = sorted(cases, key=lambda c: shared_task_objects(c) != "clean")
     exprs = []
     for c in cases:
         evs = coq_events(c)
@@ -677,6 +680,8 @@ def evaluate(ctx: Ctx, cases: list[dict], scratch: str) -> None:
              "by_sharing": {}, "impl_violations_by_kind": {}, "model_mismatches": 0, "op_kinds": {"r": 0, "t": 0, "u": 0, "x": 0},
              "attempt_endings": {"ok": 0, "retry": 0, "crash": 0}}
     distinct = set()
+    mism_gen: list = []
+    mism_fix: list = []
     for i, case in enumerate(cases):
         m_gen, m_fix = model_obs(vals[2 * i]), model_obs(vals[2 * i + 1])
         raw = run_impl(case, scratch, f"{i}")
@@ -698,11 +703,24 @@ def evaluate(ctx: Ctx, cases: list[dict], scratch: str) -> None:
                 stats["attempt_endings"][ev[2]] += 1
         if n_exec > 1 or n_ops > 1:
             distinct.add(json.dumps([case["workflows"], case["schedule"], case["backend"], case["mode"]]))
-        judge(ctx, case, obs, m_gen, m_fix, stats)
+        mm = judge(ctx, case, obs, m_gen, m_fix, stats)
+        mism_gen += [mm[0]] if mm[0] else []
+        mism_fix += [mm[1]] if mm[1] else []
         if i % 7 == 0:
             ctx.sample({"backend": case["backend"], "pattern": case["pattern"], "mode": case["mode"],
                         "workflows": case["workflows"], "schedule": compact_schedule(case["schedule"]),
                         "impl_outs": obs["outs"][:8], "model_outs": m_gen["outs"][:8]}, limit=5)
+    # reference model: the generated configuration; when the translator fell back to the committed default
+    # (source shape not recognised) the executor scope is not known from the source, so the scope variant that
+    # explains the implementation better is the reference
+    degraded = ctx.translators.get("workflow", {}).get("degraded", False)
+    ref, ref_name = mism_gen, "gen_cfg"
+    if degraded and len(mism_fix) < len(mism_gen):
+        ref, ref_name = mism_fix, "gen_cfg with a per-execution executor (translator degraded)"
+    stats["model_mismatches"] = len(ref)
+    stats["reference_model"] = ref_name
+    for key, what, rp in ref:
+        ctx.violation(key, what, rp)
     ctx.count(stats["cases"], len(distinct))
     ctx.notes["histories"] = stats
 
@@ -711,7 +729,7 @@ def compact_schedule(s) -> str:
     return " ".join(f"{ev[0]}{ev[1]}" + (f"@img{ev[2]}/wf{ev[3]}" if ev[0] == "B" else (f":{ev[2]}" if ev[0] == "E" else "")) for ev in s)
 
 
-def judge(ctx: Ctx, case: dict, obs: dict, m_gen: dict, m_fix: dict, stats: dict) -> None:
+def judge(ctx: Ctx, case: dict, obs: dict, m_gen: dict, m_fix: dict, stats: dict) -> list:
     replay = {"case": case}
     v_impl = oracle(case, obs)
     v_fix_kinds = {k for k, _ in oracle(case, m_fix)}
@@ -731,16 +749,15 @@ def judge(ctx: Ctx, case: dict, obs: dict, m_gen: dict, m_fix: dict, stats: dict
             key = f"{kind}:{case['backend']}"
             what = f"[{case['backend']}, {case['pattern']}, {case['mode']}] {text}"
         ctx.violation(key, what, {**replay, "violation": [kind, text], "observed": obs["outs"]})
-    same = all(obs[k] == m_gen[k] for k in ("outs", "store", "launches"))
-    if not same:
-        stats["model_mismatches"] += 1
-        if not v_impl or all(k in v_fix_kinds for k, _ in v_impl):
-            pass
-        diff = next(k for k in ("outs", "store", "launches") if obs[k] != m_gen[k])
-        ctx.violation(f"model-mismatch:{case['backend']}:{diff}",
-                      f"[{case['backend']}, {case['pattern']}, {case['mode']}] implementation and model (gen_cfg) disagree on {diff}: "
-                      f"impl={obs[diff]} model={m_gen[diff]}",
-                      {**replay, "impl": obs, "model": m_gen})
+    out = []
+    for name, m in (("gen_cfg", m_gen), ("per_execution", m_fix)):
+        diff = next((k for k in ("outs", "store", "launches") if obs[k] != m[k]), None)
+        out.append(None if diff is None else
+                   (f"model-mismatch:{case['backend']}:{diff}",
+                    f"[{case['backend']}, {case['pattern']}, {case['mode']}] implementation and model ({name}) disagree on {diff}: "
+                    f"impl={obs[diff]} model={m[diff]}",
+                    {**replay, "impl": obs, "model": m}))
+    return out
 
 
 def child_process_cases(ctx: Ctx, scratch: str) -> None:
